@@ -50,40 +50,37 @@ Inductive rcase :=
   RCase (kind : nkind) (dk : dkind) (r : rule) (feature : list (option ext)) (n_bins : nat)
         (obs : bobs).
 
-Definition ok_case (c : rcase) : bool :=
+(* numpy's bin count differs from the mathematical rule (float effect at an exact point) *)
+Definition is_inexact (dk : dkind) (r : rule) (feature : list (option ext)) : bool :=
+  let '(n, lo, hi) := summary_of (finite_vals feature) in
+  match np_edges r dk n lo hi with
+  | NpOk K _ => let '(_, _, Kx) := rule_outer_exact r dk n lo hi in negb (K =? Kx)%N
+  | _ => false
+  end.
+
+(* one evaluation of the model per case: (agrees, the model rejects the input, outside the model) *)
+Definition verdict (c : rcase) : bool * bool * bool :=
   match c with
   | RCase kind dk r feature n_bins obs =>
       match bin_with_rule kind dk r feature n_bins, obs with
-      | RRes (NOk n _ _ rows), ONum n' rows' => Nat.eqb n n' && rows_ok rows rows'
-      | RRes (NErr e), OErr e' => berr_eqb e e'
-      | RUnmodelled, _ => true
-      | _, _ => false
+      | RRes (NOk n _ _ rows), ONum n' rows' => (Nat.eqb n n' && rows_ok rows rows', false, false)
+      | RRes (NOk _ _ _ _), _ => (false, false, false)
+      | RRes (NErr e), OErr e' => (berr_eqb e e', true, false)
+      | RRes _, _ => (false, true, false)
+      | RUnmodelled, _ => (true, false, true)
       end
   end.
+Definition ok_case (c : rcase) : bool := fst (fst (verdict c)).
+Definition case_inexact (c : rcase) : bool :=
+  match c with RCase _ dk r feature _ _ => is_inexact dk r feature end.
 
-Definition is_err (c : rcase) : bool :=
-  match c with
-  | RCase kind dk r feature n_bins _ =>
-      match bin_with_rule kind dk r feature n_bins with RRes (NOk _ _ _ _) => false | _ => true end
-  end.
-Definition is_unmodelled (c : rcase) : bool :=
-  match c with
-  | RCase kind dk r feature n_bins _ =>
-      match bin_with_rule kind dk r feature n_bins with RUnmodelled => true | _ => false end
-  end.
-(* numpy's bin count differs from the mathematical rule (float effect at an exact point) *)
-Definition is_inexact (c : rcase) : bool :=
-  match c with
-  | RCase kind dk r feature n_bins _ =>
-      let '(n, lo, hi) := summary_of (finite_vals feature) in
-      match np_edges r dk n lo hi with
-      | NpOk K _ => let '(_, _, Kx) := rule_outer_exact r dk n lo hi in negb (K =? Kx)%N
-      | _ => false
-      end
-  end.
+Definition v_ok (v : bool * bool * bool) : bool := fst (fst v).
+Definition v_err (v : bool * bool * bool) : bool := snd (fst v).
+Definition v_unm (v : bool * bool * bool) : bool := snd v.
 
-(* (disagreeing indices, #cases, #cases the model rejects or leaves out, #unmodelled,
-    #cases with one bin more than the exact rule) *)
+(* (disagreeing indices, #cases, #cases the model rejects, #cases outside the model,
+    #cases with a bin count different from the exact rule's) *)
 Definition summary (cs : list rcase) :=
-  (bad_indices ok_case cs, List.length cs, count_true is_err cs, count_true is_unmodelled cs,
-   count_true is_inexact cs).
+  let vs := map verdict cs in
+  (bad_indices v_ok vs, List.length vs, count_true v_err vs, count_true v_unm vs,
+   count_true case_inexact cs).
